@@ -39,6 +39,7 @@ const (
 	KDictE
 	KDict
 	KChain
+	KHighload
 	KEncErr
 	KOpaque
 	KUnsupported
@@ -232,6 +233,8 @@ func (u *Universe) describe(t reflect.Type) *Desc {
 			return &Desc{Kind: KDictE, Name: name, Elem: kd, Elem2: vd}
 		case "tlb.VmStack":
 			return &Desc{Kind: KVmStack, Elem: u.Describe(t.Elem())}
+		case "wallet.PayloadHighload":
+			return &Desc{Kind: KHighload, Name: name}
 		case "wallet.W5ExtendedActions":
 			return &Desc{Kind: KChain, Name: name, Elem: u.Describe(t.Elem())}
 		}
@@ -530,6 +533,8 @@ func (d *Desc) TextIdx(idx map[string]int) string {
 		return "(:di|" + d.Elem.TextIdx(idx) + "|" + d.Elem2.TextIdx(idx) + ")"
 	case KChain:
 		return "(:ch|" + d.Elem.TextIdx(idx) + ")"
+	case KHighload:
+		return ":hl"
 	case KEncErr:
 		return "(:ee|:" + symSafe(d.Name) + ")"
 	default:
@@ -619,6 +624,8 @@ func (d *Desc) Lean(idx map[string]int) string {
 		return "(.dict " + d.Elem.Lean(idx) + " " + d.Elem2.Lean(idx) + ")"
 	case KChain:
 		return "(.chain " + d.Elem.Lean(idx) + ")"
+	case KHighload:
+		return ".highload"
 	case KEncErr:
 		return fmt.Sprintf("(.encErr %q)", symSafe(d.Name))
 	default:
